@@ -10,7 +10,7 @@
     All functions are executable: the check evaluates [spec_step] and
     [classify] inside Coq on the implementation's observed traces. *)
 From Coq Require Import String Ascii List Bool Arith ZArith.
-From Raven Require Import Base.GoStr Base.Like Model.Pattern Model.Names.
+From Raven Require Import Base.GoStr Model.Pattern Model.Names.
 Import ListNotations.
 
 (** ---- what the client wrote ---- *)
@@ -165,8 +165,6 @@ Fixpoint spec_trace (st : store) (h : list cmd) : list (store * res * list str) 
 Inductive cls :=
 | K_quoted_space        (* a name with white space: the line is split on blanks before unquoting *)
 | K_quoted_escape       (* a quoted name with an escaped dquote or backslash: the escapes are never undone *)
-| K_like_wildcard       (* RENAME/DELETE x, x contains _ or % : LIKE selects rows that are no children *)
-| K_like_case           (* RENAME/DELETE x: LIKE folds ASCII case, selects another name's children *)
 | K_rename_into_child   (* RENAME a a/b: the moved row is selected as its own child *)
 | K_rename_leading_slash(* RENAME x /y refused (CREATE /y is accepted) *)
 | K_rename_partial      (* RENAME refused by UNIQUE after parents were created / target subtree occupied *)
@@ -190,11 +188,6 @@ Definition arg_class (raw : str) : option cls :=
 
 Definition raw_parents (n : str) : list str := prefixes_at_delim [] n.
 
-Definition like_extra (old : str) (ns : list str) : bool :=
-  existsb (fun m => like (child_pattern old) m && negb (is_child old m)) ns.
-Definition like_class (old : str) : cls :=
-  if has_like_wildcard old then K_like_wildcard else K_like_case.
-
 Definition classify_db (st : store) (c : cmd) : option cls :=
   let bs := boxes st in
   match c with
@@ -208,7 +201,6 @@ Definition classify_db (st : store) (c : cmd) : option cls :=
       match decode_astring a with
       | Some n =>
           if negb (exists_box bs n) || str_eqb (canon n) INBOX then None
-          else if like_extra n (names bs) then Some (like_class n)
           else if negb (existsb (fun b => is_child n (mb_name b)) bs)
                   && existsb (equal_fold n) protected_names && negb (mem_str n protected_names)
                then Some K_protected_case else None
@@ -224,9 +216,7 @@ Definition classify_db (st : store) (c : cmd) : option cls :=
           else if existsb is_nil (raw_parents new) then Some K_rename_leading_slash
           else if is_child old new then Some K_rename_into_child
           else
-            let bs1 := add_missing (parents new) bs in
-            if like_extra old (names (set_name old new bs1)) then Some (like_class old)
-            else if existsb (fun m => is_child new m) (names bs1) then Some K_rename_partial
+            if existsb (fun m => is_child new m) (names (add_missing (parents new) bs)) then Some K_rename_partial
             else None
       | _, _ => None end
   | CSubscribe a | CUnsubscribe a | CStatus a | CAppend a =>
